@@ -288,6 +288,7 @@ static void pool_case(Case& c) {
         int a = rng.coin(75) ? 0 : 1;
         int kind = rng.in(0, 13);
         if (kind > 10) kind = 0;
+        if (kind == 9 && !use_pht && rng.coin(80)) kind = 1;  // without a table the call is rejected and ends the case
         std::string err;
         std::ostringstream line, ret;
         bool stop = false;
